@@ -13,6 +13,7 @@ RULE = ("Generated: state type in {positive, complex}, num_visible 1..5 x num_hi
         "2^nh hidden configurations). Non-trivial = every bias vector of every network has a non-zero entry AND some "
         "|parameter| >= 0.5; distinct = SHA-1 of the canonical JSON of the case.")
 RULE_EXT = ('Extended as built: n up to 10 (1/16 of cases), structured parameter families (equal / alternating / extreme entries), complex states built from a user module half the time; every evaluation is repeated after read-only operations, after evaluating a second object, and along the in-place history A -> B -> (biases of A, weights of B) -> A; sample batches as rank-3, float32, int64 and uint8 tensors; aliases compute_normalization and importance_sampling_numerator/denominator/weight are compared with the same reference. Rounds 5-6: replacement amplitude network (other hidden size) through the rbm_am setter; sparse histories (one entry point, one evaluation per parameter set); ownership of results (held results unchanged by later calls, no shared memory, in-place edits of a result do not leak).')
+RULE_EXT += ' Round 10 (after an exception / long time axis): after a fit() aborted by an exception from a user callback (normalisation evaluated in its callbacks, same space object) and a parameter change; 40 parameter states evaluated on one object with the normalisation asked for twice at each; sub-batch psi compared relative to the modulus.'
 RULE = RULE + " " + RULE_EXT
 ASSUMPTIONS = ["CPU only", "parameters rescaled by construction so that |log weight| <= 300 (double-precision exp range)",
                "rtol 1e-7 against the enumeration oracle (softplus threshold e^-20 per hidden unit), 1e-9 between library outputs"]
